@@ -9,6 +9,7 @@ from .runner import hyp_run
 
 PROP = "C04"
 LEVEL = "exploration"
+EVALUATION_COUNTER = "roundtrips"
 RULE = (
     "trees from (1) an exhaustive template sweep: every (outer operator, inner operator or negation, side) nesting "
     "of depth 2 over 6 leaf kinds and every depth-3 operator nesting, rendered with explicit parentheses and parsed; "
